@@ -204,14 +204,15 @@ theorem blockLines_repo (corr : List (Int × Nat)) (N : Nat) (ar : Arity) (w : N
   · exact hpost l hl
   · trivial
 
-theorem fileLines_repo (F : TabFacts tab idxTab tbl) (m : Mol) (hw : C02.WfFacts tbl m) (hc : C02.CharFacts m)
+theorem fileLinesOrd_repo (F : TabFacts tab idxTab tbl) (m : Mol) (hw : C02.WfFacts tbl m) (hc : C02.CharFacts m)
     (hr : RepoFacts (tab.map (·.path)) m) (hnames : ∀ p ∈ tbl, hdrName p.1 = p.1)
     (hnomac : ∀ p ∈ tbl, p.1 ≠ "macros")
-    (hmol : hdrName "moleculetype" = "moleculetype") (hat : hdrName "atoms" = "atoms") :
-    ∀ l ∈ C02.fileLines m, LineRepo l := by
+    (hmol : hdrName "moleculetype" = "moleculetype") (hat : hdrName "atoms" = "atoms")
+    (names : List String) (hsub : ∀ n ∈ names, n ∈ C02.remainingNames m) :
+    ∀ l ∈ C02.fileLinesOrd m names, LineRepo l := by
   have hsf := sectFacts_of m hw hc _ hr hnames
   intro l hl
-  simp only [C02.fileLines, List.mem_append] at hl
+  simp only [C02.fileLinesOrd, List.mem_append] at hl
   rcases hl with ((hl | hl) | hl) | hl
   · -- prelude
     simp only [C02.prelude, List.mem_append, List.mem_map, List.mem_flatMap, List.mem_cons,
@@ -256,13 +257,20 @@ theorem fileLines_repo (F : TabFacts tab idxTab tbl) (m : Mol) (hw : C02.WfFacts
       exact blockLines_repo (C02.correspondence m) m.atoms.length ar _ _ _ blk
         (fun it hi => (hf.inters it (hmem it hi)).1) (linesOf_repo m.post hr.post _) l hl
   · -- left-over sections
-    simp only [C02.remainingPart, List.mem_flatMap, List.mem_append, List.mem_cons, List.not_mem_nil,
+    simp only [C02.remainingPartOf, List.mem_flatMap, List.mem_append, List.mem_cons, List.not_mem_nil,
       or_false] at hl
     obtain ⟨n, hn, hl⟩ := hl
     rcases hl with ((rfl | hl) | hl) | rfl
-    · exact hr.remainingNoMacros n hn
+    · exact hr.remainingNoMacros n (hsub n hn)
     · exact linesOf_repo m.pre hr.pre _ l hl
     · exact linesOf_repo m.post hr.post _ l hl
     · trivial
+
+theorem fileLines_repo (F : TabFacts tab idxTab tbl) (m : Mol) (hw : C02.WfFacts tbl m) (hc : C02.CharFacts m)
+    (hr : RepoFacts (tab.map (·.path)) m) (hnames : ∀ p ∈ tbl, hdrName p.1 = p.1)
+    (hnomac : ∀ p ∈ tbl, p.1 ≠ "macros")
+    (hmol : hdrName "moleculetype" = "moleculetype") (hat : hdrName "atoms" = "atoms") :
+    ∀ l ∈ C02.fileLines m, LineRepo l :=
+  fileLinesOrd_repo F m hw hc hr hnames hnomac hmol hat (C02.remainingNames m) (fun _ h => h)
 
 end C02.Repo
